@@ -65,7 +65,7 @@ def gen_one(pid, rng, thorough):
     g = cls(rng, steps, faithful=(profile == "faithful" or rng.random() < 0.15), reentrant=(profile in ("storm", "commits") or rng.random() < 0.3))
     tune(g, "commits" if profile == "lifecycle" else profile, rng)
     if profile == "lifecycle" and rng.random() < 0.5:
-        g.script = [dict(e, res=("ok" if e["res"].startswith("err") else e["res"])) for e in g.script]
+        g.script = [dict(e, res=("ok" if e["res"].startswith(("err", "failed")) else e["res"])) for e in g.script]
     sc, impl, run = g.generate()
     sc["profile"] = profile
     return sc, impl, run
@@ -349,6 +349,9 @@ def run(ctx, res, pid):
     from harness.lib import consumer_fullstack
 
     consumer_fullstack.run_stage(ctx, res, pid, ctx.scale(150, 4000))
+    if pid in ("C02", "C14"):
+        # messages larger than the fetch buffer through the REAL client: the buffer grows, everything is delivered
+        consumer_fullstack.growth_stage(ctx, res, pid, ctx.scale(25, 600), mine=("C02", "C14") if pid == "C02" else ("C14",))
     # 5. beyond the model's environment (restart from inside the processor, processor Deferreds that outlive their
     #    cancellation): Lean monitors on the implementation's trace only
     from harness.lib import consumer_ext
